@@ -67,7 +67,11 @@ def run(ctx):
                 operands = [random_pt(ctx.rng, [types[l] for l in ix], values=VIT_V, defaults=[-math.inf, -math.inf, 0.0, -1.0], specials=0.05)
                             for ix in ops_ix]
             else:
-                operands = [random_pt(ctx.rng, [types[l] for l in ix], values=REAL_V, defaults=[0.0, 0.0, 1.0, 2.0], specials=0.0)
+                # a quarter of the jobs: infinite entries in SOME operands only (inf * 0 = 0 in the semiring, whichever operand
+                # holds the inf and whichever the 0)
+                infs = k % 4 == 1
+                operands = [random_pt(ctx.rng, [types[l] for l in ix], values=REAL_V, defaults=[0.0, 0.0, 1.0, 2.0],
+                                      specials=(0.2 if infs and ctx.rng.random() < 0.5 else 0.0), special_values=(math.inf, math.inf, 0.0))
                             for ix in ops_ix]
             if alias:
                 operands = [operands[0]] * len(operands)
